@@ -36,7 +36,7 @@ ModeProps(m) ==
       [] m \in {"parstruct", "paralloc"} -> {"C24"}
       [] m \in {"parwrite", "parwritefix", "parwritenest"} -> {"C20"}
       [] m \in {"parcancel", "parcancelfix", "parcancelnest"} -> {"C21"}
-      [] m = "parpanic" -> {"C22"}
+      [] m \in {"parpanic", "parpaniccancel"} -> {"C22"}
       [] OTHER -> {"C16"}
 
 Put(f, k, v) == [x \in (DOMAIN f) \cup {k} |-> IF x = k THEN v ELSE f[x]]
@@ -49,6 +49,7 @@ Fresh(p, mode, inject) ==
         cur |-> <<>>, execd |-> {}, live |-> {}, dropb |-> {}, pend |-> [op |-> "none"], flag |-> FALSE,
         mustpw |-> {}, stack |-> <<>>, creq |-> <<>>, cused |-> <<>>, armed |-> {}, mustloc |-> {},
         inject |-> inject, injected |-> FALSE, panicked |-> FALSE, canon |-> <<>>, ids |-> <<>>,
+        unwinding |-> {}, cbeg |-> {},
         pslot |-> <<>>, pown |-> <<>>, allocs |-> 0]
 
 ev == Rec[l]
@@ -83,6 +84,7 @@ OnRet ==
         anyInj == st.inject > 0 \/ st.injected
         s1 == [st EXCEPT !.cur = Put(st.cur, T, [op |-> "none"]), !.stack = Put(st.stack, T, <<>>),
                          !.mustpw = st.mustpw \ {T}, !.mustloc = st.mustloc \ {T}, !.armed = st.armed \ {T},
+                         !.unwinding = st.unwinding \ {T},
                          !.panicked = st.panicked \/ (ev.ok = 0 /\ ev.kind \notin {"cancel_pw", "cancel_local"})]
     IN
     IF c.op = "get" THEN
@@ -204,6 +206,21 @@ OnTRdInt ==
     /\ CheckAll({"C24", "C08"}, nk \in DOMAIN st.ids /\ st.ids[nk] = ev.v, <<"interned value does not read back", ev.id, ev.v>>)
     /\ st' = st
 
+\* ClaimGuard::release_panicking: the outcome handed to the waiters of a claim released during unwinding.
+\* A thread that unwinds from a panic (injected here) hands out Panicked unless its own local cancellation
+\* is what fires: requested for this handle (cancel_begin logged in this round) and not deferred by an
+\* enclosing fixpoint frame.  Cancelled instead makes the waiters silently retry a computation that panicked.
+OnHk ==
+    LET s == Get(st.stack, T, <<>>)
+        pos == {i \in 1..Len(s) : s[i] = ev.kj}
+        enclosed == \E i \in pos : \E o \in 1..(i - 1) : CycFix(s[o])
+    IN
+    /\ (ev.name = "sync_release" /\ ev.text \in {"Panicked", "Cancelled"} /\ T \in st.unwinding /\ ev.kj > 0 /\ pos # {}
+         /\ (T \notin st.cbeg \/ enclosed)) =>
+          Check("C19", ev.text = "Panicked",
+                <<"claim of a panicking computation released with outcome Cancelled (its waiters retry instead of seeing the panic)", T, ev.k, ev.kj, enclosed>>)
+    /\ st' = st
+
 TraceInit ==
     /\ l = 1
     /\ P = Rec[1].prog
@@ -228,17 +245,18 @@ TraceNext ==
          [] ev.e = "div" -> OnDiv
          [] ev.e = "trdint" -> OnTRdInt
          [] ev.e = "round" -> st' = [st EXCEPT !.live = {}, !.dropb = {}, !.cur = <<>>, !.stack = <<>>, !.mustpw = {}, !.pown = <<>>,
-                                              !.mustloc = {}, !.armed = {}, !.flag = FALSE]
+                                              !.mustloc = {}, !.armed = {}, !.flag = FALSE, !.unwinding = {}, !.cbeg = {}]
          [] ev.e = "clone" -> st' = [st EXCEPT !.live = st.live \cup {ev.h}]
          [] ev.e = "drop_begin" -> st' = [st EXCEPT !.dropb = st.dropb \cup {ev.h}]
          [] ev.e = "drop_end" -> st' = [st EXCEPT !.live = st.live \ {ev.h}, !.dropb = st.dropb \ {ev.h}]
          [] ev.e = "dscf" -> st' = [st EXCEPT !.flag = TRUE]
          [] ev.e = "wproc" -> OnWproc
          [] ev.e = "wcc" -> OnWcc
-         [] ev.e = "cancel_begin" -> st' = [st EXCEPT !.creq = Put(st.creq, ev.h, Get(st.creq, ev.h, 0) + 1)]
+         [] ev.e = "cancel_begin" -> st' = [st EXCEPT !.creq = Put(st.creq, ev.h, Get(st.creq, ev.h, 0) + 1), !.cbeg = st.cbeg \cup {ev.h}]
          [] ev.e = "cancel_end" ->
                st' = [st EXCEPT !.armed = IF Get(st.cur, ev.h, [op |-> "none"]).op # "none" THEN st.armed \cup {ev.h} ELSE st.armed]
-         [] ev.e = "inject" -> st' = [st EXCEPT !.injected = TRUE]
+         [] ev.e = "inject" -> st' = [st EXCEPT !.injected = TRUE, !.unwinding = st.unwinding \cup {T}]
+         [] ev.e = "hk" -> OnHk
          [] ev.e = "hang" ->
                /\ CheckAll(ModeProps(st.mode) \cup {"C16"}, FALSE, <<"threads did not terminate (hang)", ev.finished, ev.threads>>)
                /\ st' = st
